@@ -418,6 +418,9 @@ func runPair(a caseA, e *pairEnv, k int, capture bool) (res runRes) {
 		defer raw.Close()
 		raw.SetDeadline(time.Now().Add(deadline))
 		sn := &sniff{Conn: raw}
+		if capture {
+			sn.max = 1 << 23
+		}
 		defer func() {
 			res.cr, res.sr = helloRandom(sn.w), helloRandom(sn.r)
 			if capture {
@@ -559,7 +562,17 @@ func appRecords(b []byte) [][]byte {
 	return out
 }
 
-func runCase(line string) string {
+type capt struct {
+	suite          uint16
+	seed, c2s, s2c int
+	master         string
+	r              runRes
+}
+
+func runCase(line string) string { return runCaseCap(line, nil) }
+
+// caps != nil: completing GMSSL connections between two gmtls ends are captured for the independent decoder
+func runCaseCap(line string, caps *[]capt) string {
 	f := strings.Split(line, " ")
 	id := f[1]
 	res, _ := hx.Guard(90*time.Second, func() string {
@@ -567,8 +580,24 @@ func runCase(line string) string {
 		case "A":
 			a := parseA(f)
 			env := newEnv(a)
-			r := runPair(a, env, 0, false)
+			capture := caps != nil && a.ckind == "g" && a.peer == "gg"
+			r := runPair(a, env, 0, capture)
 			cls := classify(&r)
+			master0 := r.master
+			keep := func(k int, rk *runRes) {
+				if capture && rk.c.dataOK && rk.s.dataOK && rk.cr != nil && rk.sr != nil {
+					m := rk.master // a resumed connection logs nothing: it uses the first connection's master secret
+					if m == "" {
+						m = master0
+					}
+					if m != "" {
+						*caps = append(*caps, capt{rk.c.suite, a.seed + 7919*k, a.c2s, a.s2c, m, *rk})
+					}
+				}
+			}
+			if cls == "C" {
+				keep(0, &r)
+			}
 			if cls == "E" {
 				return "ok E"
 			}
@@ -581,8 +610,11 @@ func runCase(line string) string {
 			if a.conns > 1 {
 				more = ""
 				for k := 1; k < a.conns; k++ {
-					rk := runPair(a, env, k, false)
+					rk := runPair(a, env, k, capture)
 					ck := classify(&rk)
+					if ck == "C" {
+						keep(k, &rk)
+					}
 					switch {
 					case ck != "C":
 						more += ck + "[" + sanitize(rk.c.err) + "|" + sanitize(rk.s.err) + "]"
@@ -609,7 +641,7 @@ func runCase(line string) string {
 			if classify(&r) != "C" || !(r.c.dataOK && r.s.dataOK) {
 				return "err " + sanitize(r.c.err) + " " + sanitize(r.s.err)
 			}
-			return "ok " + hx.Hex(payloadBytes(seed, 1, c2s)) + " " + hx.Hex(payloadBytes(seed, 2, s2c))
+			return "ok " + digest(payloadBytes(seed, 1, c2s)) + " " + digest(payloadBytes(seed, 2, s2c))
 		}
 		return "BADCASE"
 	})
@@ -623,17 +655,35 @@ func b2i(b bool) int {
 	return 0
 }
 
+// digest of a byte string as the D observations carry it: length, two position-weighted sums, first bytes
+func digest(b []byte) string {
+	var s1, s2 uint64
+	for i, x := range b {
+		s1 = (s1 + uint64(x)) % 65521
+		s2 = (s2 + uint64(i+1)*uint64(x)) % 4294967291
+	}
+	n := len(b)
+	if n > 16 {
+		n = 16
+	}
+	return fmt.Sprintf("%d:%d:%d:%s", len(b), s1, s2, hx.Hex(b[:n]))
+}
+
+// the D case of one captured GMSSL connection (master secret, hello randoms, application-data records)
+func dLine(id int, suite uint16, seed, c2s, s2c int, master string, r *runRes) (string, string) {
+	return fmt.Sprintf("D %d %04x %d %d %d %s %s %s %s %s", id, suite, seed, c2s, s2c, master, hx.Hex(r.cr), hx.Hex(r.sr),
+			hx.HexList(appRecords(r.w)), hx.HexList(appRecords(r.r))),
+		fmt.Sprintf("%d ok %s %s", id, digest(payloadBytes(seed, 1, c2s)), digest(payloadBytes(seed, 2, s2c)))
+}
+
 // a D case is made from a live capture
 func makeD(id int, suite string, seed, c2s, s2c int) (string, string) {
-	sniffMax = 1 << 20
 	a := caseA{mode: "gm", ckind: "g", csuites: suite, ssuites: "n", ccert: "n", peer: "gg", c2s: c2s, s2c: s2c, seed: seed, pool: true, conns: 1, closer: "-"}
 	r := runPair(a, newEnv(a), 0, true)
 	if classify(&r) != "C" || r.master == "" {
 		return fmt.Sprintf("D %d %s %d %d %d - - - - -", id, suite, seed, c2s, s2c), fmt.Sprintf("%d err capture %s %s", id, sanitize(r.c.err), sanitize(r.s.err))
 	}
-	return fmt.Sprintf("D %d %s %d %d %d %s %s %s %s %s", id, suite, seed, c2s, s2c, r.master, hx.Hex(r.cr), hx.Hex(r.sr),
-			hx.HexList(appRecords(r.w)), hx.HexList(appRecords(r.r))),
-		fmt.Sprintf("%d ok %s %s", id, hx.Hex(payloadBytes(seed, 1, c2s)), hx.Hex(payloadBytes(seed, 2, s2c)))
+	return dLine(id, r.c.suite, seed, c2s, s2c, r.master, &r)
 }
 
 // ---------------------------------------------------------------------------------------------
@@ -924,6 +974,7 @@ func gen(seed uint64, tier string) (cases []string, pre map[int]string) {
 
 func runAll(cases []string, pre map[int]string, o *hx.Out, withCases bool) {
 	res := make([]string, len(cases))
+	caps := make([][]capt, len(cases))
 	var wg sync.WaitGroup
 	sem := make(chan struct{}, 10)
 	for i := range cases {
@@ -936,15 +987,32 @@ func runAll(cases []string, pre map[int]string, o *hx.Out, withCases bool) {
 		go func(i int) {
 			defer wg.Done()
 			defer func() { <-sem }()
-			res[i] = runCase(cases[i])
+			if withCases {
+				res[i] = runCaseCap(cases[i], &caps[i])
+			} else {
+				res[i] = runCase(cases[i])
+			}
 		}(i)
 	}
 	wg.Wait()
+	maxID := 0
 	for i := range cases {
 		if withCases {
 			o.Case(cases[i])
 		}
 		o.Obs(res[i])
+		if id, err := strconv.Atoi(strings.Split(cases[i], " ")[1]); err == nil && id > maxID {
+			maxID = id
+		}
+	}
+	// every captured GMSSL connection becomes a D case for the independent decoder
+	for i := range caps {
+		for _, c := range caps[i] {
+			maxID++
+			cl, ob := dLine(maxID, c.suite, c.seed, c.c2s, c.s2c, c.master, &c.r)
+			o.Case(cl)
+			o.Obs(ob)
+		}
 	}
 }
 
